@@ -618,6 +618,9 @@ func c07Check(c C07Case, cx *h.Ctx) *h.Failure {
 			geom.MarshalTWKB(other, c.PrecXY, opts...)
 			geom.MarshalTWKB(other, 0)
 		}
+		if msg := scribbleStable("MarshalTWKB", func() []byte { r, _ := geom.MarshalTWKB(g, c.PrecXY, opts...); return r }); msg != "" {
+			return h.Failf("twkb/result-shared", "%s (%s)", msg, model)
+		}
 		if !bytes.Equal(b, held) {
 			return h.Failf("twkb/result-overwritten", "the bytes returned by MarshalTWKB changed after later MarshalTWKB calls:\nwas %x\nnow %x", held, b)
 		}
